@@ -21,7 +21,6 @@ func checkC01(ctx *Ctx) *Result {
 	r.NotDecided = "the heart of the property: that Insert, Contains and splitAtCommonSuffix implement set union of the patterns' denotations for every insertion order, duplicate, subsuming pattern and shared suffix (data-structure correctness over runtime values)"
 	r.Trusted = append([]string{"slices.BinarySearch, strings.IndexByte, append, copy behave as documented"}, trustedRequestPath...)
 	r.rule("R1.1", "glue equivalence on the request path: allowed-treatment ⇔ allow-all ∨ (Parse.ok ∧ Contains), both directions", 100)
-	r.rule("R1.2", "every parsed pattern is inserted unless an error is reported; `*` discards the tree", 20)
 	r.rule("R1.3", "port-code encoding agreement between add / contains / elems; sentinel and shift disjoint from real ports", 6)
 	r.rule("R1.4", "parallel slices are updated pairwise, same constructor, same index; never reordered or resized alone", 4)
 	r.rule("R1.5", "Insert always adds (or is subsumed by a wildcard entry); wildcard flag = result of the `*` test", 6)
@@ -69,7 +68,7 @@ func checkC01(ctx *Ctx) *Result {
 						good, detail = false, "Parse.ok ∧ Contains hold but the origin is not echoed (an allowed origin is refused)"
 					}
 				}
-				if rp.Not(aPNANoCors) && rp.A[aParseOK] == 0 && rp.A[aEmpty] != 1 {
+				if rp.A[aParseOK] == 0 && rp.A[aEmpty] != 1 {
 					good, detail = false, "an actual CORS request is answered without parsing its origin"
 				}
 			}
@@ -77,7 +76,18 @@ func checkC01(ctx *Ctx) *Result {
 		}
 	}
 
-	// ---- R1.2 -----------------------------------------------------------
+	treeRules(ctx, r)
+	return r
+}
+
+// treeRules: the structural necessary conditions on the origin tree itself
+// (R1.3–R1.7). They are obligations of every property whose argument takes
+// "Contains means: a listed pattern denotes the origin" as an axiom.
+func treeRules(ctx *Ctx, r *Result) {
+	p := ctx.P
+	// "listed" — what is listed reaches the tree: every pattern that parses is
+	// inserted unless an error is reported, and `*` discards the tree
+	r.rule("R1.2", "every parsed pattern is inserted unless an error is reported; `*` discards the tree", 20)
 	vf := ctx.ValidationFacts()
 	val := ctx.Validation()
 	if t := val.Lists["Origins"]; t == nil || len(t.Problems) > 0 || vf.Oracles["Origins"] == nil {
@@ -99,15 +109,6 @@ func checkC01(ctx *Ctx) *Result {
 		exitStores(ctx, r, "R1.2", t)
 	}
 
-	treeRules(ctx, r)
-	return r
-}
-
-// treeRules: the structural necessary conditions on the origin tree itself
-// (R1.3–R1.7). They are obligations of every property whose argument takes
-// "Contains means: a listed pattern denotes the origin" as an axiom.
-func treeRules(ctx *Ctx, r *Result) {
-	p := ctx.P
 	// every slice the tree binary-searches is kept sorted
 	r.rule("R1.10", "every slice that is binary-searched (node.edges, node.schemes, node.ports[i], SortedSet.elems) is sorted whenever it is written: inserted at its own search index, sorted after its last change and before/after being stored, a sub-slice or copy of a sorted one, or a single element", 4)
 	sortedDiscipline(ctx, r, "R1.10")
@@ -121,6 +122,7 @@ func treeRules(ctx *Ctx, r *Result) {
 			"R13.5": "request-side Parse: length cap admits the longest origin an accepted pattern denotes, same lexers, trailing input rejected",
 			"R13.6": "parseScheme and parsePort report success only after consuming at least one byte",
 			"R13.7": "fastParseHost: step table of the domain/IPv4 scan",
+			"R13.11": "parseScheme and parsePort take the longest token (maximal munch)",
 		}
 		for id, doc := range docs {
 			r.rule(id, doc, 1)
